@@ -34,6 +34,9 @@ from common import Check, Driver, Infra, canon_json, leanchecker, log
 # ------------------------------------------------------------------------------------------------- the adversarial pool
 FRESH = ["n1", "n2", "n3", "zz9", "w_1", "rel0", "inner1", "o2"]
 MIXED = ["Nx1", "ALIAS_Z", "cTe9", "QQ", "My_Rel"]
+# quoted identifiers with upper-case letters (the quotes go, the case stays): only under dialects whose identifier quote is `"`
+QUOTED = ['"Ab"', '"Qx1"', '"MyRel"', '"N2x"']
+DQUOTE_DIALECTS = ["ansi", "postgres", "snowflake", "redshift", "oracle", "trino", "duckdb", "db2", "exasol", "teradata", "vertica"]
 COLNAMES = list(gensql.COLS) + ["e", "f", "g", "k0", "p"]          # column names and select-item aliases the generators use
 # keywords sqlfluff's dialects do not reserve everywhere; whether a dialect takes one as an identifier is tested, a
 # rejection is a rejection.  Join keywords (left, right, inner, cross, full, natural, on, using …) are NOT in the pool: a
@@ -44,14 +47,17 @@ OTHER_TABLES = ["t1", "t2", "t3", "t4", "t5", "tgt", "out1", "s1", "s2"]   # bar
 
 
 def norm(n):
+    """printed form of a local name: quotes stripped and case kept when quoted, lower-cased otherwise"""
+    if len(n) > 1 and n[0] == n[-1] == '"':
+        return n[1:-1]
     return n.lower()
 
 
 def draw_names(rng, k, names, avoid):
     """k distinct (after normalisation) new names, mixing the categories; `names` = the statement's names by kind"""
     cats = [("fresh", FRESH), ("mixed", MIXED), ("column", COLNAMES), ("keyword", KEYWORDS),
-            ("own-table", names["base"] or OTHER_TABLES), ("other-table", OTHER_TABLES)]
-    weights = [3, 2, 2, 2, 3, 1]
+            ("own-table", names["base"] or OTHER_TABLES), ("other-table", OTHER_TABLES), ("quoted", QUOTED)]
+    weights = [3, 2, 2, 2, 3, 1, 2]
     out, used, kinds = [], set(avoid), []
     tries = 0
     while len(out) < k and tries < 200:
@@ -216,13 +222,16 @@ def subquery_capture_explains(stmt, op, s0, s1):
     news = {norm(n) for _, n in op.get("subst", [])}
     a, b = {tuple(p) for p in s0["pairs"]}, {tuple(p) for p in s1["pairs"]}
     removed, added = a - b, b - a
-    if not removed or not added:
+    if not removed:
         return False
     for src, _ in removed:
         parts = src.split(".")
         if len(parts) != 3 or parts[1] not in news:
             return False
     col = lambda e: e.rsplit(".", 1)[-1]
+    if not added:
+        # the captured column resolves (through the relation now carrying the alias) to a source the target already had
+        return all(any(t2 == t for _, t2 in b) for _, t in removed)
     return {(col(s), t) for s, t in removed} == {(col(s), t) for s, t in added}
 
 
@@ -241,6 +250,12 @@ def subquery_keyword_explains(stmt, op, s0, s1):
         if len(parts) != 3 or parts[1] not in kws:
             return False
     return True
+
+
+def subquery_keyword_error(stmt, op, s0, s1):
+    """model-free description of the listed finding D2-keyword-error: a select-item subquery, a new name that is a keyword, the
+    original analysed without error and the renamed text refused with the library's own lineage error"""
+    return (gensql.item_has_subq(stmt) and "keyword" in op.get("kinds", []) and "error" not in s0 and s1 == {"error": "lineage"})
 
 
 def owner_only_difference(s0, s1):
@@ -291,11 +306,43 @@ def evaluate_pair(drv, stmt, op, dialect):
     return impl_res(i0), impl_res(i1), a
 
 
+def has_using(stmt):
+    return any(isinstance(n, list) and len(n) == 4 and isinstance(n[0], str) and n[0].endswith("join") and n[3] for n in gensql._walk(stmt))
+
+
+# dialects that do not read `JOIN r USING (c)` as a join with a column list (tsql: `using` becomes the alias of r; clickhouse: the
+# list swallows what follows) — the text is another statement there (C09 `noncore` rules): such pairs are left out and counted
+USING_NONCORE = ("tsql", "clickhouse")
+
+
+def exposed_clash(stmt):
+    """some FROM clause exposes one name twice (alias, or the bare name of an un-aliased table): the names CLASH — most engines
+    refuse the statement — so the pair is outside the property's quantifier ("fresh, non-clashing names").  sqllineage cannot
+    tell `t1 as t1` from `t1`, so after the D7 repair (an explicit alias wins over a bare name) this is the only place where
+    a bare name can still capture an alias."""
+    for n in gensql._walk(stmt):
+        if isinstance(n, list) and len(n) == 7 and n[0] == "select":
+            seen = set()
+            for fe in n[3]:
+                for el in [fe[0]] + [j[1] for j in fe[1]]:
+                    if not (isinstance(el, list) and el and el[0] in ("table", "derived")):
+                        continue
+                    name = el[2] if el[2] else (el[1][-1] if el[0] == "table" else None)
+                    if name is None:
+                        continue
+                    if norm(name) in seen:
+                        return True
+                    seen.add(norm(name))
+    return False
+
+
 def verdict_class(a, op):
     """which pairs are inside the property's quantifier (the operation's side condition as decided by Lean), and whether the
     pair touches the D7 shape: `d7` = either statement has an alias (written or default) equal to the bare name of a table"""
     if op["op"] == "rename":
         if not (a["ok"] or (a["loose"] and a["d7"])):
+            return None
+        if not a["ok"] and exposed_clash(a["stmt"]):
             return None
     elif not a["ok"]:
         return None
@@ -332,6 +379,8 @@ def classify(drv, stmt, op, a, x0, x1, mm0, mm1, cache, listed):
         return "known:D2-alias-capture", det
     if "D2-keyword-alias" in listed and subquery_keyword_explains(stmt, op, s0, s1):
         return "known:D2-keyword-alias", det
+    if "D2-keyword-error" in listed and subquery_keyword_error(stmt, op, s0, s1):
+        return "known:D2-keyword-error", det
     if cls == "d7" and "D7" in listed and owner_only_difference(s0, s1):
         # the model does not describe this case — a select-item subquery (`_get_column_from_subquery`), or a dialect that reads
         # the ORIGINAL text differently from the typed AST: D7 is then recognised by its model-free signature — same tables,
@@ -369,6 +418,79 @@ def shape_of(sql, dialect):
         return go(tree)
     except Exception as e:     # noqa
         return ["<error>", type(e).__name__]
+
+
+def reuse_families():
+    """statements with two local names A1, A2 that live in DISJOINT scopes (sibling derived tables, CTE bodies, set-operation
+    branches, a nested subquery that does not mention the outer name): giving both the same name is a non-clashing renaming, the
+    lineage must not change.  Returns [(family, builder(A1, A2) -> statement AST)]."""
+    g = gensql
+    ins = lambda q: ["insert", "into", False, ["tgt"], None, q, False]
+    t = lambda n, al: g.table(n, None, al)
+    fam = []
+    fam.append(("sibling-derived-over-derived", lambda a1, a2: ins(g.select(
+        [g.item(g.col("c1", "l")), g.item(g.col("c2", "r"))],
+        [g.from_expr(g.derived(g.select([g.item(g.col("x", a1), "c1")],
+                                        [g.from_expr(g.derived(g.select([g.item(g.col("x"))], [g.from_expr(t("t1", None))]), a1))]), "l"),
+                     [g.join(g.derived(g.select([g.item(g.col("x", a2), "c2")],
+                                                [g.from_expr(g.derived(g.select([g.item(g.col("x"))], [g.from_expr(t("t2", None))]), a2))]), "r"),
+                             g.eq(g.col("c1", "l"), g.col("c2", "r")))])]))))
+    fam.append(("sibling-derived-over-tables", lambda a1, a2: ins(g.select(
+        [g.item(g.col("a", "l")), g.item(g.col("b", "r"))],
+        [g.from_expr(g.derived(g.select([g.item(g.col("a", a1))], [g.from_expr(t("t1", a1))]), "l"),
+                     [g.join(g.derived(g.select([g.item(g.col("b", a2))], [g.from_expr(t("t2", a2))]), "r"),
+                             g.eq(g.col("a", "l"), g.col("b", "r")))])]))))
+    fam.append(("outer-alias-reused-in-nested-subquery", lambda a1, a2: ins(g.select(
+        [g.item(g.col("x", a1), "c1"), g.item(g.col("y", "b"), "c2")],
+        [g.from_expr(g.derived(g.select([g.item(g.col("x"))], [g.from_expr(t("t1", None))]), a1),
+                     [g.join(g.derived(g.select([g.item(g.col("x", a2), "y")],
+                                                [g.from_expr(g.derived(g.select([g.item(g.col("x"))], [g.from_expr(t("t2", None))]), a2))]), "b"),
+                             g.eq(g.col("x", a1), g.col("y", "b")))])]))))
+    fam.append(("cte-bodies", lambda a1, a2: ins(g.with_(
+        [("c1", g.select([g.item(g.col("a", a1))], [g.from_expr(t("t1", a1))])),
+         ("c2", g.select([g.item(g.col("b", a2))], [g.from_expr(t("t2", a2))]))],
+        g.select([g.item(g.col("a", "c1")), g.item(g.col("b", "c2"))],
+                 [g.from_expr(t("c1", None), [g.join(t("c2", None), g.eq(g.col("a", "c1"), g.col("b", "c2")))])]))))) 
+    fam.append(("setop-branches", lambda a1, a2: ins(g.setop(
+        (g.select([g.item(g.col("a", a1))], [g.from_expr(t("t1", a1))]), False),
+        [("union all", (g.select([g.item(g.col("a", a2))], [g.from_expr(t("t2", a2))]), False))]))))
+    fam.append(("where-subquery", lambda a1, a2: ins(g.select(
+        [g.item(g.col("a", a1))], [g.from_expr(t("t1", a1))],
+        wh=["in", g.col("b", a1), False, g.select([g.item(g.col("c", a2))], [g.from_expr(t("t3", a2))])]))))
+    return fam
+
+
+def check_reuse(chk, drv, st, dialects):
+    """scope-disjoint reuse of one local name: implementation(A1 != A2) vs implementation(A1 = A2), model not consulted"""
+    fams = reuse_families()
+    names = [("q1", "q2", "q"), ("x", "y", "x"), ("Nx1", "n2", "nx1"), ("l0", "r0", "t9")]
+    if chk.tier == "thorough":
+        names += [(a, b, c) for a, b, c in zip(FRESH, FRESH[1:], MIXED)]
+    builds = [(f, fn, nm) for f, fn in fams for nm in names]
+    ans = sqlcheck.model_eval(drv, [[fn(nm[0], nm[1])] for _, fn, nm in builds] + [[fn(nm[2], nm[2])] for _, fn, nm in builds])
+    n = len(builds)
+    jobs = [(bi, d) for bi in range(n) for d in dialects]
+    r0 = sqlimpl.run_cases([{"sql": ans[bi]["sql"][0], "dialect": d, "want": ("tables", "columns")} for bi, d in jobs], chunksize=8)
+    r1 = sqlimpl.run_cases([{"sql": ans[n + bi]["sql"][0], "dialect": d, "want": ("tables", "columns")} for bi, d in jobs], chunksize=8)
+    reported = set()
+    for (bi, d), i0, i1 in zip(jobs, r0, r1):
+        f, fn, nm = builds[bi]
+        x0, x1 = impl_res(i0), impl_res(i1)
+        if x0 is None or x1 is None:
+            st.reject[d] += 1
+            continue
+        s0, s1 = summary(x0), summary(x1)
+        chk.count(canon_json([ans[bi]["sql"][0], ans[n + bi]["sql"][0], d]), "error" not in s0 and bool(s0.get("pairs")))
+        st.c["reuse:" + f] += 1
+        if s0 == s1:
+            st.c["reuse:invariant"] += 1
+            continue
+        st.c["reuse:not-invariant"] += 1
+        if f not in reported:
+            reported.add(f)
+            chk.violation("lineage changes when two local names of disjoint scopes are given the same (non-clashing) name",
+                          {"kind": "c08-reuse", "family": f, "names": list(nm), "dialect": d, "sql": ans[bi]["sql"][0],
+                           "renamed_sql": ans[n + bi]["sql"][0], "impl_original": s0, "impl_renamed": s1})
 
 
 WITNESS_D7 = {
@@ -450,6 +572,11 @@ def run(chk):
             ds += [extra_dialects[ci % len(extra_dialects)]]      # every other sqlfluff dialect in rotation
         if si is None:
             ds = [WITNESS_D7["dialect"]]
+        if "quoted" in op["kinds"]:
+            ds = [d for d in ds if d in DQUOTE_DIALECTS]
+        if si is not None and has_using(stmts[si][1]):
+            st.c["left-out:USING-under-noncore-dialect"] += sum(1 for d in ds if d in USING_NONCORE)
+            ds = [d for d in ds if d not in USING_NONCORE]
         for d in ds:
             jobs0.setdefault((si, d), a["orig_sql"])
             jobs1.append((ci, d))
@@ -525,6 +652,18 @@ def run(chk):
         failures.append((si, op, d, cls, a))
     for fid, n in known_hits.items():
         chk.known(fid, n)
+    check_reuse(chk, drv, st, base_dialects)
+    # every listed finding: its stored pair of texts is replayed on the implementation; still not invariant -> KNOWN-FINDING
+    for e in chk.findings:
+        w = e.get("witness") or {}
+        if e.get("status") != "finding" or w.get("kind") != "c08-pair" or "renamed_sql" not in w:
+            continue
+        x = [impl_res(sqlimpl.run_case({"sql": w[k], "dialect": w["dialect"], "want": ("tables", "columns")})) for k in ("sql", "renamed_sql")]
+        if None not in x and "error" not in x[0] and ("error" in x[1] or pairs_of(x[0]["paths"]) != pairs_of(x[1]["paths"])):
+            if e["id"] not in chk.known_hits:
+                chk.known(e["id"])
+        else:
+            chk.stale.append({"kind": "finding-no-longer-reproduces", "id": e["id"], "witness": w})
     # ---- the listed finding must still reproduce (DESIGN §2.5 step 7)
     if d7_listed and witness_deviates is False:
         chk.stale.append({"kind": "c08-known-finding", "why": "D7 is listed as a finding but its witness is invariant on this tree",
@@ -618,5 +757,10 @@ def replay(chk, obj):
         if x0 is None or x1 is None:
             return 0
         return 0 if same_modulo_star(drv, r["ast"], a["stmt"], s0, s1, cache) else 1
+    if r.get("kind") == "c08-reuse":
+        x = [summary(impl_res(sqlimpl.run_case({"sql": r[k], "dialect": r["dialect"], "want": ("tables", "columns")})))
+             for k in ("sql", "renamed_sql")]
+        print(json.dumps({"sql": r["sql"], "renamed": r["renamed_sql"], "impl_original": x[0], "impl_renamed": x[1]}, indent=1))
+        return 0 if x[0] == x[1] else 1
     print("replay file names no concrete input:", json.dumps(r)[:800])
     return 1
